@@ -757,54 +757,119 @@ def _r11(ctx, pkg):
                   expected=f"[s for s in species_network if s {'in' if op == 'In' else 'not in'} [Species(n) for n in EnzoPatch.{table}]]", found=found)
 
 
-def _r9(ctx, pkg):
-    fn = pkg.method("Network", "species")
-    ctx.saw(NETF, "Network.species")
-    fl = Flow(fn, NETF)
-    rets = [f for f in fl.facts if f.kind == "return"]
-    found = "; ".join(show(simp(f.value))[:100] for f in rets)
+def class_resolver(pkg, cname):
+    """name -> FunctionDef of a method of the class (MRO), for value-flow inlining of small helper methods"""
+    def res(name):
+        return pkg.resolve(cname, name)[1]
+    return res
 
-    def unwrap(v):
-        while v[0] == "call" and v[1] in (("global", "list"), ("global", "tuple")) and len(v[2]) == 1:
+
+def _unwrap_seq(v):
+    """list(x) / tuple(x) / x.copy() / x[:] are the sequence x"""
+    while True:
+        if v[0] == "call" and v[1] in (("global", "list"), ("global", "tuple")) and len(v[2]) == 1 and not v[3]:
             v = v[2][0]
-        while v[0] == "meth" and v[2] == "copy" and not v[3]:
+        elif v[0] == "meth" and v[2] == "copy" and not v[3]:
             v = v[1]
-        return v
+        elif v[0] == "copy":
+            v = v[1]
+        else:
+            return v
 
-    def total(v):
-        """sorted(.., key=lambda x: (.., x))"""
-        if not (v[0] == "call" and v[1] == ("global", "sorted") and dict(v[3]).get("key") is not None):
-            return False
-        lams = [n for n in ast.walk(fn) if isinstance(n, ast.Lambda)]
-        if len(lams) != 1 or not isinstance(lams[0].body, ast.Tuple):
-            return False
-        arg = lams[0].args.args[0].arg
-        return ast.unparse(lams[0].body.elts[-1]) in (arg, f"{arg}.name")
-    # a memo (self._x) may stand between the computation and the return: it must hold the totally ordered list
-    memo = {f.target: unwrap(simp(f.value)) for f in fl.facts if f.kind == "attrstore"}
-    ok = bool(rets)
-    for f in rets:
-        v = unwrap(simp(f.value))
+
+def species_order(pkg):
+    """Network.species by ROLE, whatever the locals are called and whether the pieces sit inline or in helper methods:
+    -> (fn, flow, [(return fact, layers, members)]) where, for the value a return hands out (through a memo attribute if there is
+    one), layers = [key IR | None, ...] of the nested sorted(..) calls from the outermost inwards and members = the collection
+    the innermost one sorts."""
+    fn = pkg.method("Network", "species")
+    fl = Flow(fn, NETF, resolver=class_resolver(pkg, "Network"))
+    memo = {f.target: simp(f.value) for f in fl.facts if f.kind == "attrstore" and f.extra.get("obj") == SELF}
+    out = []
+    for f in fl.facts:
+        if f.kind != "return":
+            continue
+        v = _unwrap_seq(simp(f.value))
         if v[0] == "attr" and v[1] == SELF and v[2] in memo:
-            v = memo[v[2]]
-        ok = ok and total(v)
+            v = _unwrap_seq(memo[v[2]])
+        layers = []
+        while v[0] == "call" and v[1] == ("global", "sorted") and len(v[2]) == 1 and not (set(dict(v[3])) - {"key"}):
+            layers.append(dict(v[3]).get("key"))
+            v = _unwrap_seq(v[2][0])
+        out.append((f, layers, v))
+    return fn, fl, out
+
+
+def union_operands(v):
+    """operands of a set union spelled with `|` or .union(..), flattened"""
+    if v[0] == "binop" and v[1] == "BitOr":
+        return union_operands(v[2]) + union_operands(v[3])
+    if v[0] == "meth" and v[2] == "union" and not v[4]:
+        out = union_operands(v[1])
+        for a in v[3]:
+            out += union_operands(a)
+        return out
+    return [v]
+
+
+def _total_key(k):
+    """a sort key under which no two different species tie: no key at all (the species' own order), or a function returning a
+    tuple that ends in the species itself (or its name)"""
+    if k is None:
+        return True
+    if k[0] == "lambda" and len(k[1]) == 1 and k[2][0] == "tuple" and k[2][1]:
+        return k[2][1][-1] in (k[1][0], ("attr", k[1][0], "name"))
+    return False
+
+
+def _setness(v):
+    """'set' when the value is a set by construction (set(..), set comprehension / display, union / intersection / difference of
+    such, the cached species sets), 'list' when it is a sequence that keeps duplicates, else None (not understood)"""
+    k = v[0]
+    if k == "call" and v[1] in (("global", "set"), ("global", "frozenset")):
+        return "set"
+    if k == "set" or (k == "comp" and v[1] == "set"):
+        return "set"
+    if k == "attr" and v[1] == SELF and v[2] in ("_reactants", "_products"):
+        return "set"
+    if k == "binop" and v[1] in ("BitOr", "BitAnd", "Sub", "BitXor"):
+        a, b = _setness(v[2]), _setness(v[3])
+        return "set" if a == "set" or b == "set" else a if a == b else None
+    if k == "meth" and v[2] in ("union", "intersection", "difference", "symmetric_difference") and not v[4]:
+        return _setness(v[1])
+    if k in ("list", "tuple") or (k == "comp" and v[1] in ("list", "gen")) or (k == "binop" and v[1] == "Add"):
+        return "list"
+    if k == "attr" and v[1] == SELF and v[2] == "_required_species":
+        return "list"
+    return None
+
+
+def _r9(ctx, pkg):
+    fn, fl, rets = species_order(pkg)
+    ctx.saw(NETF, "Network.species")
+    found = "; ".join(show(simp(f.value))[:100] for f, _, _ in rets)
+    # the value handed out is sorted(.., key=K) with K total
+    ok = bool(rets) and all(bool(layers) and layers[0] is not None and _total_key(layers[0]) for _, layers, _ in rets)
     ctx.check(ok, "R9", "Network.species:total order", (NETF, fn.lineno),
               "species are ordered by sorted(.., key=(connectivity, species)): ties are broken by the species' own order, so the order does not depend on set iteration" if ok else
               "the species order is not a total order (no tie-break by the species itself): slots depend on set iteration order, which varies with the hash seed -- "
               "artefacts rendered in different processes (macro header vs patch tables) disagree",
               expected="sorted(speclist, key=lambda x: (len(connection[x]), x))", found=found)
-    # the unordered inputs are sorted before anything iterates them
-    # by role: the variable that is finally returned; its FIRST value must already be sorted
-    retname = None
-    for n in ast.walk(fn):
-        if isinstance(n, ast.Return) and n.value is not None:
-            for x in ast.walk(n.value):
-                if isinstance(x, ast.Name) and x.id in fl.assigns:
-                    retname = x.id
-    a = fl.assigns.get(retname, []) if retname else []
-    first_ok = bool(a) and simp(a[0][0])[0] == "call" and simp(a[0][0])[1] == ("global", "sorted")
-    ctx.check(first_ok, "R9", "Network.species:sorted input", (NETF, a[0][3] if a else fn.lineno), "the union of the reactant/product/required sets is sorted before use",
-              found=show(simp(a[0][0]))[:100] if a else "")
+    # the unordered inputs are sorted before anything iterates them: what the final sort receives is itself a sorted(..) of the sets
+    first_ok = bool(rets) and all(len(layers) >= 2 and _total_key(layers[1]) for _, layers, _ in rets)
+    ctx.check(first_ok, "R9", "Network.species:sorted input", (NETF, rets[0][0].line if rets else fn.lineno), "the union of the reactant/product/required sets is sorted before use",
+              found="; ".join(show(m)[:100] for _, _, m in rets))
+    # ... and what is sorted is a SET of species: two entries that are equal (one species spelled twice, e- / E) are one member
+    for f, layers, members in rets[:1]:
+        kind = _setness(members) if layers else None
+        key = "Network.species:members are a set"
+        if kind == "set":
+            ctx.ok("R9", key, (NETF, f.line), "the species are collected in a set (Species equality decides what is one species)")
+        elif kind == "list":
+            ctx.bad("R9", key, (NETF, f.line), "the species are collected in a list, not a set: an entry that occurs twice (a species required twice, or spelled e- and E) "
+                    "gets two slots and two IDX_ macros", expected="sorted(self._reactants | self._products | set(self._required_species))", found=show(members)[:140])
+        else:
+            ctx.unrec("R9", key, (NETF, f.line), f"the collection that is sorted into the species list is not understood: {show(members)[:140]}")
 
 
 MUTANTS = [
